@@ -22,6 +22,7 @@ import (
 	"fmt"
 	"math/rand"
 	"net"
+	"os"
 	"reflect"
 	"regexp"
 	"runtime"
@@ -40,7 +41,14 @@ func init() {
 
 // linear allocation bound of one SFDecode call in octets (C02 share): the sampled-header cap (1500+3)
 // and the per-record / per-read bookkeeping of encoding/binary, fmt and the maps give the slope
-const allocA, allocB = 256, 8192
+var allocA, allocB = envInt("VERIF_ALLOC_A", 64), envInt("VERIF_ALLOC_B", 4096)
+
+func envInt(k string, d int) int {
+	if v, err := strconv.Atoi(os.Getenv(k)); err == nil {
+		return v
+	}
+	return d
+}
 
 // ---------------------------------------------------------------- abstract datagram
 
